@@ -1,6 +1,8 @@
 package checks
 
 import (
+	"io/fs"
+	"syscall"
 	sqlite3 "github.com/mattn/go-sqlite3"
 	"context"
 	"errors"
@@ -60,7 +62,7 @@ func ifaceOptions(op string, after bool) []string {
 	case "r.GetLatest":
 		return []string{"ok", "err", "err-sticky"}
 	case "w.GetLatest":
-		return []string{"ok", "err", "unavailable", "internal", "err-sticky"}
+		return []string{"ok", "err", "unavailable", "internal", "err-sticky", "enoent"}
 	case "w.Set":
 		if after {
 			return []string{"ok", "err", "err-after-effect", "err-sticky"}
@@ -102,6 +104,11 @@ func faultErr(kind string) error {
 		return status.Error(codes.Unavailable, "verif: injected unavailable")
 	case "internal":
 		return status.Error(codes.Internal, "verif: injected internal")
+	case "enoent":
+		// What a store on a file system reports when a file has gone missing:
+		// errors.Is(err, os.ErrNotExist) holds - and it is a FAILED read, not
+		// 'no checkpoint yet'.
+		return &fs.PathError{Op: "open", Path: "/var/lib/witness/chkpts.db-journal", Err: syscall.ENOENT}
 	}
 	return errInjected
 }
